@@ -57,6 +57,35 @@ pub struct Spec {
     /// place this spelling names when read without following the symlink holds the complete fault-free tree as a decoy
     #[serde(default)]
     pub spelling: u8,
+    /// the whole tree is delegated this many further times: wrapped into that many one-step layouts, each delegating
+    /// its step to one functionary who files the next layout as a sub-layout (delegation depth up to 22)
+    #[serde(default)]
+    pub extra_depth: u8,
+}
+
+/// `inner` becomes the evidence of a one-step layout, `n` times over; the outermost layout keeps `inner`'s owner signatures.
+fn wrap_in_delegations(inner: World, n: usize) -> World {
+    let f = stranger(50);
+    let owner_sigs = inner.sigs.clone();
+    let mut cur = inner;
+    for lvl in 0..n {
+        cur.sigs = vec![SigEntry::good(&f)];
+        let name = format!("w{}", lvl);
+        cur = World {
+            layout: LayoutSpec {
+                expires: 4_000_000_000,
+                readme: String::new(),
+                keys: vec![f.clone()],
+                steps: vec![StepSpec { name: name.clone(), threshold: 1, pubkeys: vec![f.clone()], expected_command: vec![], expected_materials: vec![], expected_products: vec![] }],
+                inspect: vec![],
+            },
+            sigs: vec![],
+            tamper: None,
+            links: vec![LinkFile { step: name, filed_under: f.clone(), name_field: None, symlink_store: false, body: Body::Sub { world: Box::new(cur), placement: Placement::Proper } }],
+        };
+    }
+    cur.sigs = owner_sigs;
+    cur
 }
 
 fn rename_top(w: &mut World, suffix: &str) {
@@ -224,7 +253,7 @@ impl Property for C15 {
          ground-truth model finds no violated condition (the delegated step counts only when the inner world, judged with key set {K} and \
          directory <step>.<K8>, has none); on Ok the returned summary equals {requested name, materials of the first step, products, \
          command and byproducts of the last step} computed by the model (inner summaries feed parent evidence); fully valid MATCH-tied \
-         worlds must verify. Non-trivial: a fault makes the model report a violated condition and the fault-free control verifies Ok, or \
+         worlds, and fully valid trees wrapped into 7-20 further delegation levels, must verify. Non-trivial: a fault makes the model report a violated condition and the fault-free control verifies Ok, or \
          the world is valid with a delegated step and >= 2 steps; distinct by (fault, depth, inner step count, layout shape)."
             .into()
     }
@@ -238,8 +267,8 @@ impl Property for C15 {
         let depth = tier.pick(1usize, 2usize);
         let cfg = Cfg { min_steps: 1, max_steps: 3, max_owners: 1, sub_depth: depth, multi_sub: true, max_threshold: 2, big: true, ..Cfg::basic() };
         (valid_world(cfg), fault_strategy(), any::<u8>(), proptest::option::of("[a-z]{1,6}"), any::<bool>(), prop_oneof![3 => Just(false), 1 => Just(true)], any::<bool>(),
-            prop_oneof![1 => Just(None), 2 => (1_200_000_000i64..3_900_000_000).prop_map(Some)], prop_oneof![3 => Just(0u8), 1 => Just(1u8), 1 => Just(2u8), 2 => Just(3u8)])
-            .prop_filter_map("has a delegated step", |((mut world, owners), fault, which, step_name, match_link, deeper, dotted, clock, spelling)| {
+            prop_oneof![1 => Just(None), 2 => (1_200_000_000i64..3_900_000_000).prop_map(Some)], prop_oneof![3 => Just(0u8), 1 => Just(1u8), 1 => Just(2u8), 2 => Just(3u8)], prop_oneof![30 => Just(0u8), 1 => Just(7u8), 1 => Just(8u8), 1 => Just(9u8), 1 => Just(12u8), 1 => Just(20u8)])
+            .prop_filter_map("has a delegated step", |((mut world, owners), fault, which, step_name, match_link, deeper, dotted, clock, spelling, extra_depth)| {
                 let dotted = dotted || fault == InnerFault::MisplacedStrippedExtension;
                 if dotted {
                     rename_top(&mut world, ".rel-1.2");
@@ -252,7 +281,7 @@ impl Property for C15 {
                 if sub_indices(&world).is_empty() {
                     return None;
                 }
-                Some(Spec { world, owners, fault, which, step_name, match_link, deeper, dotted, clock, spelling })
+                Some(Spec { world, owners, fault, which, step_name, match_link, deeper, dotted, clock, spelling, extra_depth })
             })
             .boxed()
     }
@@ -300,6 +329,12 @@ impl Property for C15 {
         let applied = apply_inner_fault(&mut w, li, &spec.fault, spec.deeper, now);
         let fault_name = format!("{:?}", spec.fault).split(|c| c == '(' || c == ' ').next().unwrap_or("").to_string();
         o.class(format!("fault:{}", if applied { fault_name.as_str() } else { "not-applicable" }));
+        let (base, w) = if spec.extra_depth > 0 {
+            o.class(format!("delegation-depth:+{}", spec.extra_depth));
+            (wrap_in_delegations(base, spec.extra_depth as usize), wrap_in_delegations(w, spec.extra_depth as usize))
+        } else {
+            (base, w)
+        };
         let root = env.fresh_dir("c15");
         let dir = root.join("real").join("links");
         // history on disk: the fault-free tree was verified once in this very directory before
@@ -338,8 +373,8 @@ impl Property for C15 {
         let _ = std::fs::remove_dir_all(&root);
         let Some(r) = r else { return o };
         o.class(if r.is_ok() { "verdict:ok" } else { "verdict:err" });
-        let inner_steps = match &w.links[li].body {
-            Body::Sub { world, .. } => world.layout.steps.len(),
+        let inner_steps = match w.links.get(li).map(|f| &f.body) {
+            Some(Body::Sub { world, .. }) => world.layout.steps.len(),
             _ => 0,
         };
         let depth = {
@@ -379,7 +414,7 @@ impl Property for C15 {
             match &r {
                 Err(e) => {
                     o.class("valid-world-rejected");
-                    if spec.match_link && (spec.fault == InnerFault::None || !applied) {
+                    if (spec.match_link || spec.extra_depth > 0) && (spec.fault == InnerFault::None || !applied) {
                         o.fail("C15/rejects-valid-delegation/match-tied", format!("in_toto_verify = Err({}) on a world the model finds fully valid", e),
                             "Ok: the delegated step contributes first-step materials and last-step products");
                     }
